@@ -47,8 +47,9 @@ func (o *Object) Clone() *Object {
 	return &c
 }
 
-// UserFields are the user-settable top-level fields the checks patch and compare.
-var UserFields = []string{"contentType", "cacheControl", "contentDisposition", "contentLanguage", "metadata"}
+// UserFields are the user-settable top-level fields the checks patch and compare. contentEncoding is only ever set to
+// "gzip" on objects whose bytes are a gzip stream (upload metadata, PATCH) or to "identity".
+var UserFields = []string{"contentType", "cacheControl", "contentDisposition", "contentLanguage", "contentEncoding", "metadata"}
 
 // ExtractFields takes the user-settable fields out of a decoded object resource.
 func ExtractFields(res map[string]any) map[string]any {
